@@ -22,6 +22,9 @@ type Driver struct {
 	// Imports is the Coq import line(s) of the cases file, CheckFn the Gallina
 	// function `case -> N`, CaseType the Gallina type of one case.
 	Imports  string
+	// Prelude: definitions shared by every shard (large constants).  Written once as casedefs.v (headed by the import
+	// lines of Imports as they are when the run ends), compiled once by bin/check, and imported by every shard.
+	Prelude string
 	CheckFn  string
 	CaseType string
 	// ClassFn, if set, is a Gallina function `case -> N` whose histogram is
@@ -169,6 +172,12 @@ func (c *Ctx) finish() error {
 	if shard <= 0 {
 		shard = 400
 	}
+	os.Remove(filepath.Join(c.Out, "casedefs.v"))
+	if c.drv.Prelude != "" {
+		if err := os.WriteFile(filepath.Join(c.Out, "casedefs.v"), []byte(c.drv.Imports+"\nLocal Open Scope N_scope.\n"+c.drv.Prelude+"\n"), 0o644); err != nil {
+			return err
+		}
+	}
 	var files []string
 	for i, n := 0, 0; i < len(c.cases); i, n = i+shard, n+1 {
 		j := i + shard
@@ -179,6 +188,9 @@ func (c *Ctx) finish() error {
 		var b strings.Builder
 		fmt.Fprintf(&b, "(* written by /verif/harness: property %s seed %d tier %s *)\n", c.Prop, c.Seed, c.Tier)
 		b.WriteString(c.drv.Imports + "\n")
+		if c.drv.Prelude != "" {
+			b.WriteString("Require Import casedefs.\n")
+		}
 		b.WriteString("Local Open Scope N_scope.\n")
 		fmt.Fprintf(&b, "Definition cases : list (N * %s) := [\n", c.drv.CaseType)
 		for k, cs := range c.cases[i:j] {
@@ -216,7 +228,7 @@ func (c *Ctx) finish() error {
 	meta := map[string]interface{}{
 		"property": c.Prop, "seed": c.Seed, "tier": c.Tier,
 		"evaluations": len(c.cases), "distinct": len(c.distinct),
-		"classes": c.classes, "stats": c.stats, "files": files,
+		"classes": c.classes, "stats": c.stats, "files": files, "prelude": c.drv.Prelude != "",
 		"native_violations": c.native, "known_findings_seen": c.knownSeen, "native_checks": c.nativeChecks,
 		"notes": c.notes, "sample_indices": sampleIdx,
 	}
